@@ -28,6 +28,7 @@ class Types(object):
     def __init__(self, prog):
         self.prog = prog
         self.field_types = {}  # (class key, field) -> set of type ids
+        self.elem_types = {}  # (class key, container field) -> set of element type ids (package classes only)
         self.param_types = {}  # (fn key, param) -> set of type ids
         self.global_types = {}  # (module, name) -> set
         self.deref_types = {}  # (fn key, param) -> class key : param is a weakref to that class
@@ -309,6 +310,18 @@ class Types(object):
 
     def _infer_call(self, fi, call):
         changed = False
+        # element types of container fields:  <obj>.<F>.append(x) / add / appendleft / insert(i, x)
+        f0 = call.func
+        if isinstance(f0, ast.Attribute) and f0.attr in ("append", "add", "appendleft", "insert") and isinstance(f0.value, ast.Attribute) and call.args and not call.keywords:
+            for ot in self.static_type(f0.value.value, fi):
+                oc = self.cls_of(ot)
+                if oc is None:
+                    continue
+                ets = set(t for t in self.static_type(call.args[-1], fi) if t.startswith("C:"))
+                key = (oc.key, mangle(fi.cls.name if fi.cls else None, f0.value.attr))
+                if ets - self.elem_types.get(key, set()):
+                    self.elem_types.setdefault(key, set()).update(ets)
+                    changed = True
         callee, skip, ci = self._callee_of(fi, call)
         if ci is not None and ci.record_fields is not None:
             # namedtuple record: positional/keyword args -> field types
